@@ -39,6 +39,12 @@ CHECKS = {
         "note": "trusts the printer (jqref/ast.py) as encoding of the documented table and of the right-extension of as/def/label; faithfulness is judged on names, variables, numbers, string texts, keywords and operators (grouping tokens and sugar normalised)",
         "technique": "runtime monitoring: print/parse round-trip monitor with an independent printer, exhaustive over operator pairs/triples",
     },
+    "C16": {
+        "text": "Held on the executions observed: generated acyclic module graphs (up to 6 modules; diamonds, the same module by several routes and aliases, name/arity clashes, mixed include/import, data imports shadowing global variables, calls from under local binders, recursion) are run through the real loader+compiler+interpreter with a counting in-memory reader and compared with the single inlined program computed by an independent resolver of the documented visibility rules; programs referencing what the rules forbid must be rejected at compile time; cyclic graphs must be reported as errors within edges+1 reads; modules are read at most once per import edge. At the command line the module/data file is placed in subsets of the candidate directories (search metadata relative to the importing file / working directory, -L paths, ~ via HOME, $ORIGIN via a copied binary, defaults) and the documented first candidate must win; absolute paths are refused; given extensions are kept.",
+        "design_ref": "DESIGN.md §4 C16",
+        "note": "trusts the resolver in checks/c16.py as a reading of the documented rules (includes are not treated as transitive); follows the property (not docs/advanced.dj) for the order local-before-global",
+        "technique": "runtime monitoring: reference resolver (inlining) vs real module loader + filesystem placement scenarios",
+    },
     "C08": {
         "text": "Held on the executions observed: whole comparison matrices over pools of typed values (every number representation of equal values, representation boundaries, text/byte strings, objects in different insertion orders) computed by the real interpreter, compared with the manual's order and checked model-free for trichotomy, antisymmetry and transitivity; sort/unique/group_by/min/max/bsearch/array-minus checked against the same order; model-equal values substituted for each other in 20 lookup/dedup contexts. Bounded by the pools; no proof.",
         "design_ref": "DESIGN.md §4 C08",
